@@ -131,6 +131,8 @@ type faWalker struct {
 	leaves []*faLeaf
 	ords   map[int]int
 	roots  map[int]reflect.Value // outermost node of each hole
+
+	skipImports bool // leave import declarations alone (their paths are not "surrounding code" a patch may not touch: it may add to them)
 }
 
 func (w *faWalker) holeOf(n ast.Node, cur int) int {
@@ -186,6 +188,9 @@ func (w *faWalker) walk(v reflect.Value, hole int, path string) {
 		}
 	case reflect.Struct:
 		tn := v.Type().Name()
+		if w.skipImports && tn == "GenDecl" && token.Token(v.FieldByName("Tok").Int()) == token.IMPORT {
+			return
+		}
 		for i := 0; i < v.NumField(); i++ {
 			f := v.Field(i)
 			fn := v.Type().Field(i).Name
@@ -906,9 +911,12 @@ func (r *faRun) expectedFile() *ast.File {
 
 // ---- symbolising the code AROUND the sites (C05) ----
 
+// faRestSkipImports: import declarations are not symbolised (set by cases whose patch adds imports).
+var faRestSkipImports bool
+
 // restLeaves collects, in DFS order, the leaves of the file that lie outside every site.
 func faRestLeaves(f *ast.File, base int, sites []faSite) []*faLeaf {
-	w := &faWalker{base: base, ords: map[int]int{}}
+	w := &faWalker{base: base, ords: map[int]int{}, skipImports: faRestSkipImports}
 	for k, s := range sites {
 		w.holes = append(w.holes, faHole{name: fmt.Sprintf("site%d", k), lo: s.lo, hi: s.hi, site: k})
 	}
